@@ -31,6 +31,13 @@ def case_capacity(cid, kind, rng, cap):
     return (h, ops)
 
 
+def export_extra(rng, nv, pick, fresh, live):
+    """DDDMP export of 1..3 live handles (the exporter walks the diagram with a map keyed by edges: shared nodes
+    are met again and again; the counts must be back to 'handles + stored parents' afterwards)"""
+    hs = [pick() for _ in range(rng.randrange(1, 4))]
+    return f"EXPORT {rng.choice('ab')} " + " ".join(f"h{h}" for h in hs)
+
+
 def gen_cases(ctx):
     rng = random.Random(ctx.seed * 7919 + 5)
     thorough = ctx.tier == "thorough"
@@ -39,7 +46,7 @@ def gen_cases(ctx):
     for kind in ddgen.KINDS_BOOL:
         for _ in range(300 if thorough else 40):
             cases.append(ddgen.case_history(f"h{cid}", kind, rng, nv=rng.randrange(3, 7), length=rng.choice([40, 80, 150]),
-                                            threads=rng.choice([1, 1, 4]))); cid += 1
+                                            threads=rng.choice([1, 1, 4]), extra_ops=(export_extra,))); cid += 1
         for _ in range(200 if thorough else 30):
             cases.append(case_capacity(f"c{cid}", kind, rng, rng.choice([120, 160, 200, 250]))); cid += 1
     # large managers (several allocation chunks of 65536 slots): sessions that allocate, drop and collect without
